@@ -87,20 +87,20 @@ META = {
     "C08": {
         "text": "Lean 4 theorem c08_pipeline_bindings_eq_enumeration: for EVERY graph with unique node ids and EVERY chain pattern (any number of hops, any directions, labels, types), the rows the planner's pipeline produces (scan, then one adjacency expansion per hop) are exactly the assignments of the pattern-enumeration semantics; the clauses after the pattern (filter, projection, DISTINCT, ORDER BY, SKIP/LIMIT, aggregates) are one shared definition applied in clause order. The model is tied to the code by running every generated query, rendered as GQL and as Cypher, through the real front end on the real store and comparing rows with the model (and the two languages with each other).",
         "design_ref": "DESIGN.md 7 C08, 12",
-        "note": "Theorem is membership-level (set of bindings); multiplicities are covered by the correspondence and by the witness for undirected self-loops. Known findings: undirected self-loop matched twice, DISTINCT planned below the projection, Cypher ORDER BY property internal error. Gremlin/GraphQL renderings and variable-length paths not streamed.",
+        "note": "Theorems: same members (c08_pipeline_bindings_eq_enumeration) and same multiplicities (c08_pipeline_bindings_perm_enumeration: the pipeline's bindings are a permutation of the enumeration's; corollary for queries without DISTINCT/ORDER BY/SKIP/LIMIT). The clauses after the pattern are one shared definition, tied to the code by the correspondence only. Repaired: undirected self-loop matched twice, RETURN DISTINCT ignored, Cypher ORDER BY on a returned property, GQL LIMIT before ORDER BY, stacked filters. Gremlin/GraphQL renderings, variable-length paths and aggregates other than count are not streamed.",
         "technique": "Lean 4 proof (pipeline = enumeration, by induction over the hop list) + differential correspondence of query text -> rows against the executable model in two languages",
     },
     "C09": {
-        "text": "Differential, anchored in the C08 model: the answer the Lean query model defines has no optimizer in it; every generated query is run through translate -> bind -> Optimizer (each of the 2^3 switch subsets) -> Planner -> Executor with fresh, stale and absent statistics and factorized on/off, and each run's rows must equal the model's. The optimizer's rewrite functions themselves are not yet modelled, so no theorem speaks about optimizer/*.rs: the level is differential.",
+        "text": "Lean 4 theorems about a model of the logical plan algebra and of the optimizer's rewrite functions as coded (Model/Plan.lean): for EVERY graph, every interpretation of uninterpreted symbols and every plan, filter push-down preserves the rows as a list (pushFilters_sound, under the residual static condition wfPush, which every plan without duplicate column names and `*` items satisfies: wfPush_of_wfScope), projection push-down is the identity, and any join reordering accepted by the proved checker is a permutation; hence optimize_sound for all 2^3 switch sets. The model's rewrite is compared TEXTUALLY with the real Optimizer's output on every generated plan (translate -> bind -> optimize, s-expression serialisation), the model's eval with the real executor's rows, and every switch/statistics/factorized combination end to end with the query model.",
         "design_ref": "DESIGN.md 7 C09, 12",
-        "note": "A rewrite that is unsound only on plans outside the generated grammar (joins, aggregates above filters) is not seen.",
-        "technique": "differential correspondence of all switch/statistics combinations against the Lean query model (theorem reused: C08 pipeline = enumeration)",
+        "note": "Partial: residual hypothesis for plans with duplicate column names (text-reachable only with a node variable named like a generated column) and `*` items (plan API only); join reordering (never fires on query text) is validated per sample, its plan-API defects are known findings. Repaired on the way: six unsound push-down shapes (29ddb25, cc52572, ec42546).",
+        "technique": "Lean 4 proof (structural induction over plans: rewrite preserves bag semantics) + textual correspondence of the model rewrite with the real optimizer + executor-vs-eval + end-to-end switch matrix",
     },
     "C10": {
-        "text": "Differential, anchored in the C08 model: the model's answer has no physical configuration in it; every generated query runs with factorized on/off, any subset of indexed keys, cold and warm plan cache, after toggling the index set, and again after the data changed in the same session; all answers must equal the model's on the current graph. Texts differing only inside a literal must not share a cached plan.",
+        "text": "Lean 4 theorems about a model of one property column with its zone map, the property indexes and the planner's filter paths, for EVERY history of node creation/deletion, property set/overwrite/remove, zone-map rebuild (any iteration order), index creation/drop and EVERY value (all f64 bit patterns incl. NaN, +-0, infinities, subnormals; all i64): if min/max pruning says 'no row can match' then no current value passes the engine's filter predicate (c10_zone_map_sound_filter, no value-class hypothesis), and every path the planner may take - prune, index lookup with its key set, range lookup, generic filter - returns the generic filter's node set, which depends only on the live nodes and their current values (c10_planner_path_independent, for histories writing to live nodes). The model is compared line by line with PropertyStorage / LpgStore / the planner on generated histories; physical configurations (factorized, index subsets, plan cache, data changes between executions) are compared end to end with the query model.",
         "design_ref": "DESIGN.md 7 C10, 12",
-        "note": "Found and repaired: index path dropped remaining conjuncts, plan-cache key collapsed whitespace inside literals, min/max pruning of <> on mixed-type columns, factorized chain with an empty last hop, stacked filters resurrecting rows.",
-        "technique": "differential correspondence of physical configurations and data-change histories against the Lean query model (theorem reused: C08 pipeline = enumeration)",
+        "note": "Open findings (store API level, not reachable from query text): index keys are bit patterns while the scan uses Value == (+-0, NaN), writes to ids that are not live nodes, boolean order in find_nodes_in_range. Repaired on the way: nine defects across pruning / filter / range / index paths.",
+        "technique": "Lean 4 proof (invariants by induction over operation histories; floating-point facts on bit patterns) + differential correspondence with the real storage, planner and engine",
     },
     "C12": {
         "text": "Lean 4 theorems about a model of the GQL lexer: for EVERY character list, every token's start and end are character boundaries within the input (so no slice can panic), every call of next_token on non-exhausted input consumes at least one character, and tokenize terminates with exactly one final EOF within length+1 tokens. The model is compared token by token with the real lexer on generated and mutated texts (incl. non-ASCII outside literals). The other four lexers and all parsers/translators/planners are covered by a crash/hang SEARCH only (child process, catch_unwind, watchdog, address-space limit).",
